@@ -12,7 +12,7 @@ import (
 	"golang.org/x/tools/go/ssa"
 )
 
-const dnfCap = 32
+const dnfCap = 96
 
 // ResDesc describes one result of a function on one return case.
 type ResDesc struct {
@@ -288,6 +288,8 @@ func (fa *FnAnalysis) term(st *State, v ssa.Value) *Term {
 		switch x.Op {
 		case token.NOT:
 			return e.tt.mk(Term{K: "N", A: fa.term(st, x.X)})
+		case token.SUB:
+			return e.tt.mk(Term{K: "B", S: "-", A: e.tt.mk(Term{K: "C", S: "0", Const: constant.MakeInt64(0)}), B: fa.term(st, x.X)})
 		case token.MUL:
 			if a, path := allocCell(x.X); a != nil {
 				if info := fa.allocs[a]; info != nil && info.single != nil {
@@ -666,6 +668,171 @@ func (fa *FnAnalysis) edgeTransfer(st *State, p, b *ssa.BasicBlock, predIdx int)
 		}
 		incs = append(incs, ic)
 	}
+	// loop-carried knowledge for header phis on a back edge: (a) comparisons known about the
+	// incoming value hold for the phi in the next iteration (phi_next == incoming);
+	// (b) an induction variable starting at a constant and stepping by a positive
+	// (negative) constant never drops below (rises above) its start.
+	type carried struct {
+		phi  *ssa.Phi
+		fact Fact
+	}
+	var carry []carried
+	if back {
+		loopVals, _ := fa.loopValues(b)
+		for _, ic := range incs {
+			vt := fa.e.tt.mk(Term{K: "V", V: ic.phi})
+			for _, f := range ns.factList() {
+				if f.Kind != aTR || f.T.K != "B" || (f.T.S != "<" && f.T.S != "<=") {
+					continue
+				}
+				if f.T.A != ic.term && f.T.B != ic.term {
+					continue
+				}
+				nt := fa.e.tt.replaceTerm(f.T, ic.term, vt)
+				if nt == nil {
+					continue
+				}
+				ok := true
+				for _, mv := range nt.vals {
+					if mv != ssa.Value(ic.phi) && loopVals[mv] {
+						ok = false
+					}
+				}
+				if len(nt.eps) > 0 {
+					ok = false
+				}
+				if ok {
+					carry = append(carry, carried{ic.phi, Fact{aTR, nt, f.Val}})
+				}
+			}
+			// induction variable
+			{
+				// induction: one entry edge; every back-edge value is the phi itself, the phi plus a
+				// constant, or a constant.  Then the phi never drops below min(start, constants) when
+				// all steps are >= 0, and never rises above max(start, constants) when all are <= 0.
+				var init ssa.Value
+				nEntry := 0
+				up, down := true, true
+				var consts []int64
+				for i, p2 := range b.Preds {
+					ev := ic.phi.Edges[i]
+					if !b.Dominates(p2) {
+						init = ev
+						nEntry++
+						continue
+					}
+					if ev == ssa.Value(ic.phi) {
+						continue
+					}
+					if k, ok := constIntOf(ev); ok {
+						consts = append(consts, k)
+						continue
+					}
+					if bo, ok := ev.(*ssa.BinOp); ok && bo.X == ssa.Value(ic.phi) {
+						if k, ok := constIntOf(bo.Y); ok {
+							step := k
+							if bo.Op == token.SUB {
+								step = -k
+							} else if bo.Op != token.ADD {
+								up, down = false, false
+							}
+							if step < 0 {
+								up = false
+							}
+							if step > 0 {
+								down = false
+							}
+							continue
+						}
+					}
+					up, down = false, false
+				}
+				// a stepped value keeps any loop-invariant upper (lower) bound of this iteration, shifted by the step
+				if nEntry == 1 {
+					if bo, ok := ic.val.(*ssa.BinOp); ok && bo.X == ssa.Value(ic.phi) && (bo.Op == token.ADD || bo.Op == token.SUB) {
+						if k, ok := constIntOf(bo.Y); ok {
+							step := k
+							if bo.Op == token.SUB {
+								step = -k
+							}
+							pr := newProverE(fa.e, fa, ns)
+							pt := fa.term(ns, ic.phi)
+							seenU := map[*Term]bool{}
+							for _, f := range ns.factList() {
+								if f.Kind != aTR || f.T.K != "B" || (f.T.S != "<" && f.T.S != "<=") {
+									continue
+								}
+								for _, U := range []*Term{f.T.A, f.T.B} {
+									if seenU[U] || U == pt || U.K == "C" {
+										continue
+									}
+									if U.K == "B" && U.S == "+" && U.B != nil && U.B.K == "C" {
+										continue // already a shifted bound: do not build towers
+									}
+									seenU[U] = true
+									inv := len(U.eps) == 0
+									for _, mv := range U.vals {
+										if loopVals[mv] {
+											inv = false
+										}
+									}
+									if !inv {
+										continue
+									}
+									kc := fa.e.tt.mk(Term{K: "C", S: fmt.Sprint(step), Const: constant.MakeInt64(step)})
+									shifted := fa.e.tt.mk(Term{K: "B", S: "+", A: U, B: kc})
+									if step > 0 && pr.lt(pt, U) {
+										carry = append(carry, carried{ic.phi, Fact{aTR, fa.e.tt.mk(Term{K: "B", S: "<", A: vt, B: shifted}), true}})
+									}
+									if step < 0 && pr.lt(U, pt) {
+										carry = append(carry, carried{ic.phi, Fact{aTR, fa.e.tt.mk(Term{K: "B", S: "<", A: shifted, B: vt}), true}})
+									}
+								}
+							}
+						}
+					}
+				}
+				if nEntry == 1 && init != nil && (up || down) {
+					var it *Term
+					initConst, isConst := constIntOf(init)
+					if isConst {
+						it = fa.term(ns, init)
+					} else if ii, isInstr := init.(ssa.Instruction); isInstr {
+						if !fa.loopOf[b][ii.Block()] && len(consts) == 0 {
+							it = fa.term(ns, init)
+						}
+					} else if len(consts) == 0 {
+						it = fa.term(ns, init) // parameter
+					}
+					if it != nil && len(it.eps) > 0 {
+						for _, ep := range it.eps {
+							if eb := fa.e.epochBlock[ep]; eb != nil && fa.loopOf[b][eb] {
+								it = nil
+								break
+							}
+						}
+					}
+					if it != nil {
+						bound := it
+						if isConst && len(consts) > 0 {
+							m := initConst
+							for _, k := range consts {
+								if (up && k < m) || (down && !up && k > m) {
+									m = k
+								}
+							}
+							bound = fa.e.tt.mk(Term{K: "C", S: fmt.Sprint(m), Const: constant.MakeInt64(m)})
+						}
+						if up {
+							carry = append(carry, carried{ic.phi, Fact{aTR, fa.e.tt.mk(Term{K: "B", S: "<=", A: bound, B: vt}), true}})
+						} else if down {
+							carry = append(carry, carried{ic.phi, Fact{aTR, fa.e.tt.mk(Term{K: "B", S: "<=", A: vt, B: bound}), true}})
+						}
+					}
+				}
+			}
+		}
+	}
 	if back {
 		vals, blocks := fa.loopValues(b)
 		ns.dropMentioning(vals)
@@ -727,11 +894,31 @@ func (fa *FnAnalysis) edgeTransfer(st *State, p, b *ssa.BasicBlock, predIdx int)
 			ns.bind[ic.phi] = ic.val
 		}
 	}
+	for _, cf := range carry {
+		ns.add(cf.fact.Kind, cf.fact.T, cf.fact.Val)
+	}
 	return ns
 }
 
-func (fa *FnAnalysis) bump(st *State, in ssa.Instruction) {
-	st.epoch = fa.e.instrID[in]
+// bump starts a new memory epoch for the given abstract locations ("*" or
+// none: every location).
+func (fa *FnAnalysis) bump(st *State, in ssa.Instruction, locs ...string) {
+	id := fa.e.instrID[in]
+	st.epoch = id
+	all := len(locs) == 0
+	for _, l := range locs {
+		if l == "*" || strings.HasPrefix(l, "DEREF:") || strings.HasPrefix(l, "EXT?") || l == "HANDLE" {
+			all = true
+		}
+	}
+	if all {
+		st.base = id
+		st.locEp = map[string]int{}
+		return
+	}
+	for _, l := range locs {
+		st.locEp[l] = id
+	}
 }
 
 // flowBlock pushes the in-states through the block and stores the states on
@@ -786,9 +973,19 @@ func (fa *FnAnalysis) flowBlock(b *ssa.BasicBlock, ins []*State, record bool) {
 			}
 		case *ssa.Panic:
 		default:
+			var forks []*State
 			for _, s := range cur {
 				if !s.dead {
 					fa.transfer(s, in)
+					if call, ok := in.(*ssa.Call); ok && !s.dead {
+						forks = append(forks, fa.splitIntCases(s, call)...)
+					}
+				}
+			}
+			if len(forks) > 0 {
+				cur = append(cur, forks...)
+				if len(cur) > 2*dnfCap {
+					cur = dedupe(cur)
 				}
 			}
 		}
@@ -817,8 +1014,8 @@ func (fa *FnAnalysis) transfer(st *State, in ssa.Instruction) {
 			// filling a fresh argument array that is only ever sliced: no tracked cell can alias it
 			return
 		}
-		fa.bump(st, in)
 		loc := e.eff.classifyAddr(x.Addr)
+		fa.bump(st, in, loc)
 		fa.killHeap(st, []string{loc})
 		at := fa.term(st, x.Addr)
 		st.heap[at.key] = heapCell{addr: at, val: x.Val, loc: loc, ep: st.epoch}
@@ -827,8 +1024,10 @@ func (fa *FnAnalysis) transfer(st *State, in ssa.Instruction) {
 	case *ssa.Send:
 		fa.bump(st, in)
 	case *ssa.RunDefers:
-		fa.bump(st, in)
-		st.heap = map[string]heapCell{}
+		if !fa.defersOnlyUnlock() {
+			fa.bump(st, in)
+			st.heap = map[string]heapCell{}
+		}
 	case *ssa.UnOp:
 		if x.Op == token.MUL {
 			if a, path := allocCell(x.X); a != nil {
@@ -870,7 +1069,17 @@ func (fa *FnAnalysis) transfer(st *State, in ssa.Instruction) {
 				return
 			}
 			delete(st.bind, x)
-			st.terms[x] = e.tt.mk(Term{K: "L", A: at, N: st.epoch})
+			if f, ok := x.X.(*ssa.FieldAddr); ok && fieldName(f) == "nodeConfig.ldr" {
+				delete(st.terms, x)
+				return
+			}
+			// the slice header of a stack (*p, p *stack) has its own epoch: it changes only when
+			// the header itself is stored, not on element, field or lock-bookkeeping writes
+			if loc := e.eff.classifyAddr(x.X); loc == "HDR" {
+				st.terms[x] = e.tt.mk(Term{K: "L", A: at, N: st.locEpoch("HDR"), S: "HDR"})
+			} else {
+				st.terms[x] = e.tt.mk(Term{K: "L", A: at, N: st.epoch})
+			}
 		}
 	case *ssa.Call:
 		fa.transferCall(st, in, &x.Call, x)
@@ -887,7 +1096,13 @@ func (fa *FnAnalysis) transferCall(st *State, in ssa.Instruction, c *ssa.CallCom
 		switch b.Name() {
 		case "len", "cap", "min", "max", "real", "imag", "complex":
 		default:
-			fa.bump(st, in)
+			fa.bump(st, in, "SLOT", "APPEND", "APPEND:stack", "COPY", "ELEM:*")
+			for l := range st.locEp {
+				if strings.HasPrefix(l, "ELEM:") || strings.HasPrefix(l, "MAP:") {
+					st.locEp[l] = st.epoch
+				}
+			}
+			// element cells of any slice may have been written: treat unknown ELEM locations via base? keep header epochs
 			fa.killHeap(st, []string{"SLOT", "HDR"})
 			for k, c := range st.heap {
 				if strings.HasPrefix(c.loc, "ELEM:") || strings.HasPrefix(c.loc, "MAP:") {
@@ -916,15 +1131,24 @@ func (fa *FnAnalysis) transferCall(st *State, in ssa.Instruction, c *ssa.CallCom
 	if e.p.inPkg(callee) {
 		if v != nil {
 			st.cep[v] = st.epoch
+			st.cepLoc[v] = st.snap()
 			st.add(aDID, e.tt.mk(Term{K: "V", V: v}), true)
 		}
 		if !e.eff.pure(callee) {
-			fa.bump(st, in)
 			var locs []string
+			onlyLock := true
 			for _, w := range e.eff.writesOf(callee) {
 				locs = append(locs, w.Loc)
+				if w.Loc != "nodeConfig.ldr" && w.Loc != "EXT:Mutex.Lock" && w.Loc != "EXT:Mutex.Unlock" {
+					onlyLock = false
+				}
 			}
-			fa.killHeap(st, locs)
+			// lock()/unlock() write only the lock bookkeeping (nodeConfig.ldr and the mutex),
+			// which no fact is ever about: they do not start a new memory epoch
+			if !onlyLock {
+				fa.bump(st, in, locs...)
+				fa.killHeap(st, locs)
+			}
 		}
 		fa.refineCall(st, v)
 		return
@@ -988,6 +1212,28 @@ func variadicElems(v ssa.Value) []ssa.Value {
 		}
 	}
 	return out
+}
+
+// defersOnlyUnlock: every deferred call of the function writes nothing but the lock bookkeeping.
+func (fa *FnAnalysis) defersOnlyUnlock() bool {
+	for _, b := range fa.fn.Blocks {
+		for _, in := range b.Instrs {
+			d, ok := in.(*ssa.Defer)
+			if !ok {
+				continue
+			}
+			cal := fa.e.p.callee(&d.Call)
+			if cal == nil || !fa.e.p.inPkg(cal) {
+				return false
+			}
+			for _, w := range fa.e.eff.writesOf(cal) {
+				if w.Loc != "nodeConfig.ldr" && w.Loc != "EXT:Mutex.Lock" && w.Loc != "EXT:Mutex.Unlock" {
+					return false
+				}
+			}
+		}
+	}
+	return true
 }
 
 // killHeap drops forwarded cells that a write to one of the given abstract
@@ -1386,6 +1632,25 @@ func (fa *FnAnalysis) buildSummary() *Summary {
 					rc.Facts = append(rc.Facts, f)
 				}
 			}
+			// the length of a freshly made slice result, when it is a term over the parameters
+			for k := 0; k < nres && k < len(rs.ret.Results); k++ {
+				rv := rs.ret.Results[k]
+				w := rv
+				for i := 0; i < 4; i++ {
+					if nx, ok := s.bind[w]; ok && nx != nil {
+						w = nx
+					} else {
+						break
+					}
+				}
+				if ms, ok := w.(*ssa.MakeSlice); ok {
+					lt := fa.term(s, ms.Len)
+					if lt.summaryRooted(pure) {
+						rt := fa.e.tt.mk(Term{K: "LEN", A: fa.e.tt.mk(Term{K: "R", N: k})})
+						rc.Facts = append(rc.Facts, Fact{aTR, fa.e.tt.mk(Term{K: "B", S: "==", A: rt, B: lt}), true})
+					}
+				}
+			}
 			// facts about the embedded pointer of Stack/Condition results
 			for k := 0; k < nres && k < len(rs.ret.Results); k++ {
 				rv := rs.ret.Results[k]
@@ -1515,6 +1780,10 @@ func (fa *FnAnalysis) refineCall(st *State, c *ssa.Call) {
 		if ep, ok := st.cep[c]; ok {
 			epoch = ep
 		}
+	}
+	if snap := st.cepLoc[c]; snap != nil {
+		e.tt.locEpochFn = snap.of
+		defer func() { e.tt.locEpochFn = nil }()
 	}
 	type inst struct {
 		facts []Fact
@@ -1734,6 +2003,98 @@ func (fa *FnAnalysis) refineCall(st *State, c *ssa.Call) {
 			}
 		}
 	}
+}
+
+// splitIntCases: a call of a pure in-package function with one integer
+// result whose return cases each give the result as a constant or a term over
+// the parameters (ulen, cap, factorNegIndex, ...) is "inlined": the state is
+// split into one state per feasible case, each with that case's facts and the
+// result aliased to its term.  The receiver state keeps the first case; the
+// others are returned.
+func (fa *FnAnalysis) splitIntCases(st *State, c *ssa.Call) []*State {
+	e := fa.e
+	callee := e.p.callee(&c.Call)
+	if callee == nil || !e.p.inPkg(callee) || !e.eff.pure(callee) {
+		return nil
+	}
+	sig := callee.Signature.Results()
+	if sig.Len() != 1 {
+		return nil
+	}
+	if b, ok := sig.At(0).Type().Underlying().(*types.Basic); !ok || b.Info()&types.IsInteger == 0 {
+		return nil
+	}
+	if _, aliased := st.terms[c]; aliased {
+		return nil
+	}
+	sum := e.summary(callee)
+	if sum == nil || sum.Top || len(sum.Cases) < 2 || len(sum.Cases) > 6 {
+		return nil
+	}
+	args := fa.argTerms(st, &c.Call)
+	epoch := -1
+	if ep, ok := st.cep[c]; ok {
+		epoch = ep
+	}
+	if snap := st.cepLoc[c]; snap != nil {
+		e.tt.locEpochFn = snap.of
+		defer func() { e.tt.locEpochFn = nil }()
+	}
+	rt := fa.callResultTerm(st, c, 0)
+	type cs struct {
+		facts []Fact
+		T     *Term
+	}
+	var feas []cs
+	for _, rc := range sum.Cases {
+		if len(rc.Res) != 1 || rc.Res[0].T == nil {
+			return nil
+		}
+		T := e.tt.substFull(rc.Res[0].T, args, []*Term{rt}, epoch)
+		if T == nil {
+			return nil
+		}
+		ok := true
+		var fs []Fact
+		for _, f := range rc.Facts {
+			t := e.tt.substFull(f.T, args, []*Term{rt}, epoch)
+			if t == nil {
+				continue
+			}
+			if v, known := fa.knownTerm(st, f.Kind, t); known && v != f.Val {
+				ok = false
+				break
+			}
+			fs = append(fs, Fact{f.Kind, t, f.Val})
+		}
+		if ok {
+			feas = append(feas, cs{fs, T})
+		}
+	}
+	if len(feas) < 2 {
+		if len(feas) == 1 {
+			st.terms[c] = feas[0].T
+			for _, f := range feas[0].facts {
+				fa.addTermFact(st, f.Kind, f.T, f.Val)
+			}
+		}
+		return nil
+	}
+	var out []*State
+	for i := len(feas) - 1; i >= 0; i-- {
+		target := st
+		if i > 0 {
+			target = st.clone()
+		}
+		for _, f := range feas[i].facts {
+			fa.addTermFact(target, f.Kind, f.T, f.Val)
+		}
+		target.terms[c] = feas[i].T
+		if i > 0 && !target.dead {
+			out = append(out, target)
+		}
+	}
+	return out
 }
 
 // appSubterms lists the APP subterms of t, innermost first.
